@@ -50,7 +50,7 @@ type params struct {
 }
 
 func (*prop) Cases(seed int64, tier string) []core.Case {
-	loads, synthCases, per := 2, 6, 5
+	loads, synthCases, per := 3, 16, 5
 	if tier == "thorough" {
 		loads, synthCases, per = 10, 40, 20
 	}
